@@ -23,7 +23,8 @@ PROP = dict(
           "before the loop threads exist; then 20-60 steps: create (initialize(int) / std::set / initializer_list; persistent, one-shot, persistent that "
           "disables itself in its callback, one-shot that re-enables itself in its callback), enable, disable, destroy (also while enabled, also enable/disable "
           "twice), 2-3 such operations inside one loop task, re-installing the disposition of a signal nobody is subscribed to, and deliveries: raise() or "
-          "pthread_sigqueue() to the calling thread from the orchestrator or raise() inside a task on a loop thread, one at a time, bursts of 2-25 back-to-back "
+          "pthread_sigqueue() to the calling thread from the orchestrator, raise() inside a task on a loop thread, or (a quarter of the single deliveries, asan legs) "
+          "pthread_kill() at the thread of a chosen loop that /proc shows blocked in its epoll/select wait (three barrier rounds then), one at a time, bursts of 2-25 back-to-back "
           "deliveries only while no one-shot/self-modifying event is enabled; every operation is run on the owning loop and acknowledged, every delivery is "
           "followed by two acknowledged barrier tasks per loop before the counts are compared with the model; the disposition of every signal without a model "
           "subscriber is compared with the snapshot taken before the first subscription after EVERY step; teardown destroys the remaining events on their loops "
@@ -43,6 +44,8 @@ PROP = dict(
                  "is not generated",
                  "after enable() returned false nothing is assumed about the event until it is destroyed; afterwards it must be gone (disposition restored, no callback, "
                  "no use of the freed object)",
+                 "pthread_kill() at an idle loop thread: the handler runs on that thread at its next return to user mode, hence before the thread can run a task posted "
+                 "after pthread_kill() returned; the acknowledgement of that task marks the handler as finished (no wall-clock wait); never in bursts",
                  "the TSan leg uses raise() only: gcc TSan runs the handler of a self-directed raise() synchronously but defers pthread_sigqueue()"],
     technique=("lock-step reference model of per-signal subscriptions against real loops, real signals and real sigaction() readback; sentinel handlers installed "
                "before the first subscription; random histories, an exhaustively enumerated small alphabet and an exhaustive old-disposition matrix, under ASan+UBSan, "
@@ -59,7 +62,9 @@ PROP = dict(
                                "restore_checked_old_IGN_with_SA_SIGINFO", "disposition_changed_between_cycles",
                                "subscribe_second_loop_joins", "unsubscribe_loop_leaves_others_remain", "deliveries_to_2_loops", "deliveries_to_3_loops", "scenarios_wide_loop_population", "scenarios_with_more_than_8_loops_on_one_signal",
                                "max_loops_subscribed_to_one_signal", "deliveries_to_more_than_8_loops", "deliveries_to_more_than_16_loops",
-                               "deliveries_raised_on_a_loop_thread", "deliveries_before_loop_started", "subscriptions_before_loop_started",
+                               "deliveries_raised_on_a_loop_thread", "deliveries_by_pthread_kill_at_waiting_loop_thread_epoll",
+                               "deliveries_by_pthread_kill_at_waiting_loop_thread_select", "deliveries_by_pthread_kill_at_loop_thread_with_own_subscriber",
+                               "handler_ran_on_loop_thread", "deliveries_before_loop_started", "subscriptions_before_loop_started",
                                "oneshot_fired", "oneshot_multi_signal_fired", "restore_triggered_from_inside_dispatch", "window_reaction_may_overlap_handler",
                                "bursts_over_one_pipe_read", "loop_first_subscription_pipe_created", "loop_last_subscription_pipe_closed",
                                "teardown_destroy_after_loop_stopped", "loops_epoll", "loops_select", "enum_sequences",
